@@ -234,9 +234,13 @@ pub fn run_history<Q: QueueApi>(
         Ok(Err(v)) => {
             reports.push(Report { viol: v, step: 0, history: hist.clone() });
             let s = st.q.snapshot();
-            if s.tables().is_err() {
+            if s.ent.len() != s.map_len {
                 std::mem::forget(st);
                 return (reports, hist, trace);
+            }
+            if s.tables().is_err() {
+                st.tables_broken = true;
+                st.order_suspended = true;
             }
             st.m = Model::from_snap(&s);
             s
@@ -302,9 +306,15 @@ pub fn run_history<Q: QueueApi>(
                 ledger_trust = false;
                 // resynchronise the model with the real contents and go on, if the tables allow it
                 let s = st.q.snapshot();
-                if s.tables().is_err() || reports.len() >= cfg.max_viols {
+                if reports.len() >= cfg.max_viols || s.ent.len() != s.map_len {
                     dead = true;
                     break;
+                }
+                if s.tables().is_err() {
+                    // the index tables are inconsistent (reported): the contents of the map are still
+                    // well defined, so keep observing what later operations return
+                    st.tables_broken = true;
+                    st.order_suspended = true;
                 }
                 st.m = Model::from_snap(&s);
                 if matches!(reports.last().map(|r| r.viol.monitor), Some("M-ORDER") | Some("M-RET-extreme") | Some("M-DRAIN")) {
@@ -354,7 +364,7 @@ pub fn run_history<Q: QueueApi>(
             }
         }
     }
-    if dead {
+    if dead || st.tables_broken {
         // state unknown: do not run its destructor inside the monitor
         std::mem::forget(st);
         return (reports, hist, trace);
